@@ -370,6 +370,8 @@ pub fn norm_load_err(msg: &str) -> String {
     else if msg.contains("empty path") { "empty path".into() }
     else if msg.contains("nesting too deep") { "include nesting".into() }
     else if msg.starts_with("read ") { "read".into() }
+    // opening the log failed for a reason of the operating system (builddir too long, not a directory, ...)
+    else if msg.starts_with("load .n2_db: ") && msg.contains("(os error") { "dbopen-os-error".into() }
     else { msg.to_string() };
     format!("err {}", hex(kind.as_bytes()))
 }
@@ -499,6 +501,10 @@ pub fn run(ctx: &mut Ctx) {
         (vec![("other.ninja".to_string(), b"build a: phony\n".to_vec())], "./x/../other.ninja"),
         (vec![("build.ninja".to_string(), b"build $x: phony\n".to_vec())], "build.ninja"),
         (vec![("build.ninja".to_string(), b"x = abc".to_vec())], "build.ninja"),
+        // opening the log fails for a reason of the operating system
+        (vec![("build.ninja".to_string(), format!("builddir = {}\nbuild a: phony\n", "d".repeat(300)).into_bytes())], "build.ninja"),
+        (vec![("build.ninja".to_string(), b"builddir = build.ninja\nbuild a: phony\n".to_vec())], "build.ninja"),
+        (vec![("build.ninja".to_string(), b"builddir = out/dir\nbuild a: phony\n".to_vec())], "build.ninja"),
     ] {
         ctx.count("special");
         ctx.emit(&format!("load {}", files_tokens(&files, main)), || load_files(&tp, &files, main));
